@@ -353,6 +353,11 @@ class Cluster:
                 job.blocked_by = updated_blocking_jobs_by_name.get(job.name, set())
             elif job.state == JobState.DONE:
                 self._config.completed_jobs += 1
+            elif job.state == JobState.NOT_SUBMITTED:
+                # This job never ran (e.g., the submission was canceled) and was not selected.
+                # It is counted as submitted above; do not let the next submitter run it.
+                job.state = JobState.SUBMITTED
+                job.blocked_by.clear()
 
         self._serialize("prepare_for_resubmission")
         self._serialize_jobs("prepare_for_resubmission")
